@@ -66,6 +66,10 @@ def _labels(ltype, k):
         return numpy.array(["no", "yes", "maybe", "x", "versicolor", "ab", "setosa", "q", "virginica"])[:k]
     if ltype == "float":
         return numpy.array([0.0, 1.0, 2.0, 5.0, 7.0, 8.0, 11.0, 12.0, 20.0])[:k]
+    if ltype == "float-close":
+        # distinct float64 labels that agree to single precision (sensor codes,
+        # timestamps): they are different labels
+        return 1000.0 + numpy.arange(9)[:k] * 1e-5
     raise ValueError(ltype)
 
 
@@ -247,16 +251,32 @@ def _check_permutation(c, seen, X, y, labels, perm, learner_name, Xq, how, w=Non
         prev = list(perm[1:]) + list(perm[:1])
         ent.perm_hook = lambda n, p=prev: p if n == k else None
         ok0, _ = U.sut(c, "perm.fit(before)", t.fit, None, y)
+        old_inv = old_codes = None
         if ok0:
             ok0, inv0 = U.sut(c, "perm.get_fct_inv(before)", t.get_fct_inv)
             if ok0:
-                U.sut(c, "perm.inv.transform(before)", inv0.transform, X, numpy.asarray(U.sut(c, "perm.transform(before)", t.transform, X, y)[1][1]))
+                okc, rc = U.sut(c, "perm.transform(before)", t.transform, X, y)
+                if okc:
+                    old_inv, old_codes = inv0, numpy.asarray(rc[1]).copy()
+                    U.sut(c, "perm.inv.transform(before)", inv0.transform, X, old_codes)
         ent.perm_hook = lambda n: perm if n == k else None
         c.probe("transformer_fitted_before_with_another_permutation")
+        history_before = (old_inv, old_codes)
     ok, r = U.sut(c, "perm.fit", t.fit, None, y)
     if not ok:
         _viol(c, seen, "raised", ("perm.fit", type(r).__name__, how), "PermutationReciprocalTransformer.fit raised %s" % U.short_exc(r))
         return
+    old_inv, old_codes = locals().get("history_before", (None, None))
+    if old_inv is not None and not (y.dtype.kind == "f" and numpy.any(y != y)):
+        # the reciprocal obtained before the refit is still a fitted
+        # transformer of its own: it and *its* reciprocal undo each other
+        ok1, r1 = U.sut(c, "old reciprocal.transform", old_inv.transform, X, old_codes)
+        ok2, back = U.sut(c, "old reciprocal.get_fct_inv", old_inv.get_fct_inv)
+        if ok1 and ok2:
+            ok3, r3 = U.sut(c, "reciprocal of the old reciprocal.transform", back.transform, X, numpy.asarray(r1[1]))
+            if not ok3 or not numpy.array_equal(numpy.asarray(r3[1]), old_codes):
+                _viol(c, seen, "round-trip", ("permutation", "reciprocal-of-an-earlier-reciprocal"), "a reciprocal obtained before the transformer was fitted again, followed by its own get_fct_inv(), does not give the targets back (%s)" % (U.short_exc(r3) if not ok3 else "%r -> %r" % (old_codes[:5].tolist(), numpy.asarray(r3[1])[:5].tolist())))
+        c.probe("reciprocal_of_an_earlier_reciprocal")
     ycopy = y.copy()
     ok, r = U.sut(c, "perm.transform", t.transform, X, y)
     if not ok:
@@ -385,7 +405,7 @@ def _run_permutation(c, seen, tier):
     ch = c.ch
     kmax_enum = 4 if tier == "quick" else 5
     k = ch.weighted("w", [(2, 3), (3, 4), (4, 3), (5, 2), (6, 1), (7, 1), (9, 1)], "k")
-    ltype = ch.choice("w", ["int", "int-arbitrary", "str", "float"], "ltype")
+    ltype = ch.weighted("w", [("int", 3), ("int-arbitrary", 3), ("str", 3), ("float", 3), ("float-close", 1)], "ltype")
     learner = ch.choice("w", ["knn1", "gnb", "tree", "vote"], "learner")
     n = ch.integer("w", 3 * k, 3 * k + 20, "n")
     d = ch.integer("w", 1, 3, "d")
@@ -405,7 +425,7 @@ def _run_permutation(c, seen, tier):
     wts = numpy.round(rs.rand(n) * 3 + 0.2, 3) if learner != "knn1" and ch.boolean("w", 0.4, "weights") else None
     if wts is not None:
         c.probe("classifier_with_sample_weight")
-    with_nan = ltype == "float" and ch.boolean("w", 0.3, "nan")
+    with_nan = ltype in ("float", "float-close") and ch.boolean("w", 0.3, "nan")
     c.scenario.update({"clause": "permutation", "k": k, "labels": ltype, "learner": learner, "n": n, "d": d, "nan": with_nan, "data_seed": seed})
     c.signature = ["permutation", k, ltype, learner, with_nan, n // 4, d]
     if ltype == "str":
